@@ -420,7 +420,12 @@ theorem C16_counterexample_guards :
     operand), whether they succeed or raise an error, in both readings of the machine. -/
 theorem readonly_preserves (m : Mode) (h : Heap) (op : Op) (hr : readOnly op = true) :
     (step m h op).1 = h := by
-  cases op <;> simp only [readOnly, Bool.false_eq_true] at hr <;>
+  cases op
+  case bi b =>
+    cases b <;> simp only [readOnly, Bool.false_eq_true] at hr
+    simp only [step, stepB]; (repeat' split) <;> rfl
+  all_goals
+    simp only [readOnly, Bool.false_eq_true] at hr <;>
     simp only [step] <;> (repeat' split) <;> rfl
 
 /-- any sequence of read-only operations of any length leaves the heap unchanged -/
@@ -437,12 +442,26 @@ theorem readonly_seq (m : Mode) (h : Heap) (ops : List Op) (hr : ∀ op ∈ ops,
 /-- object `r` is untouched and no object disappears -/
 def Keeps (r : Nat) (h h' : Heap) : Prop := h'.objs[r]? = h.objs[r]? ∧ h.objs.length ≤ h'.objs.length
 
+/-- frame for the builtins of the "operand untouched" class (`BOp`): none but
+    `l.each(func(x) { acc.append(x) })` has a target at all -/
+theorem keeps_stepB (h : Heap) (b : BOp) (r : Nat) (hr : r < h.objs.length)
+    (ht : target (.bi b) ≠ some r) : Keeps r h (stepB h b).1 := by
+  cases b <;> simp only [stepB, target, ne_eq, Option.some.injEq, reduceCtorEq, not_false_eq_true] at ht ⊢ <;>
+    (repeat' split) <;>
+    simp_all [Keeps, Heap.put, Heap.alloc, newList, allocs, List.getElem?_append_left] <;>
+    omega
+
 /-- **Frame**: an operation changes no container object other than its target; operations
     that build a new container (slice, copy, sorted, reversed, keys, values, union, …) have
     no target and change no existing object. -/
 theorem keeps_step (m : Mode) (h : Heap) (op : Op) (r : Nat) (hr : r < h.objs.length)
     (ht : target op ≠ some r) : Keeps r h (step m h op).1 := by
-  cases op <;> simp only [step, target, ne_eq, Option.some.injEq, reduceCtorEq, not_false_eq_true] at ht ⊢ <;>
+  cases op
+  case bi b =>
+    simp only [step]
+    exact keeps_stepB h b r hr ht
+  all_goals
+    simp only [step, target, ne_eq, Option.some.injEq, reduceCtorEq, not_false_eq_true] at ht ⊢ <;>
     (repeat' split) <;>
     simp_all [Keeps, Heap.put, Heap.alloc, newList, List.getElem?_append_left] <;>
     omega
@@ -534,7 +553,222 @@ theorem copy_independent_map (m : Mode) (h : Heap) (r : Nat) (kvs : List (Str ×
   simp only [hstep]
   exact alloc_independent m h r (.map kvs) (.map kvs) hr hx
 
-/-! ## 6. Non-vacuity: the hypotheses are satisfiable and the functions do something -/
+/-! ## 6. Builtins that take a container must leave it untouched and return an independent one
+
+`sorted(x)` / `sorted(x, f)`, `reversed`, `list()`, `set()`, `keys()`, `m.items()`,
+`l.filter`, `l.each`, `chunk` (`BOp`, `stepB` in Model.lean), for EVERY heap, EVERY operand
+kind, EVERY comparison function — given as an abstract relation or as a call-numbered oracle,
+including oracles that raise at some call — and EVERY later operation sequence. -/
+
+/-- `h'` is `h` plus appended objects / byte arrays: nothing that existed has changed -/
+def Extends (h h' : Heap) : Prop := h.objs <+: h'.objs ∧ h.arrs <+: h'.arrs
+
+theorem Extends.obj {h h' : Heap} (e : Extends h h') (r : Nat) (hr : r < h.objs.length) :
+    h'.objs[r]? = h.objs[r]? := by
+  obtain ⟨t, ht⟩ := e.1
+  rw [← ht, List.getElem?_append_left hr]
+
+theorem Extends.arr {h h' : Heap} (e : Extends h h') (a : Nat) (ha : a < h.arrs.length) :
+    h'.arrs[a]? = h.arrs[a]? := by
+  obtain ⟨t, ht⟩ := e.2
+  rw [← ht, List.getElem?_append_left ha]
+
+/-- **Every builtin of the class only reads**: for every heap and every such builtin other
+    than the accumulating `each`, on every operand kind, whether it succeeds or raises (a
+    comparison function that raises at any call included), the heap afterwards is the heap
+    before plus, at most, newly appended objects: every container object and every byte
+    array that existed is exactly as it was. -/
+theorem builtin_readonly (h : Heap) (b : BOp) (ht : target (.bi b) = none) : Extends h (stepB h b).1 := by
+  cases b <;> simp only [target, reduceCtorEq] at ht <;>
+    simp only [stepB] <;> (repeat' split) <;>
+    simp [Extends, newList, Heap.alloc, allocs]
+
+/-- **A builtin that raises has changed nothing** — not even partially: for every builtin of
+    the class (all of them), an error result comes with exactly the heap it started from. -/
+theorem builtin_error_leaves_heap (h : Heap) (b : BOp) (c : ErrC) (he : (stepB h b).2 = .err c) :
+    (stepB h b).1 = h := by
+  cases b <;> simp only [stepB] at he ⊢ <;> (repeat' split) <;>
+    simp_all [newList, Heap.alloc, allocs]
+
+/-- **The container a builtin returns is a NEW object**: its handle did not exist before
+    the call and exists afterwards. -/
+theorem builtin_result_fresh (h : Heap) (b : BOp) (q : Nat) (hq : (stepB h b).2 = .val (.ref q)) :
+    h.objs.length ≤ q ∧ q < (stepB h b).1.objs.length := by
+  cases b <;> simp only [stepB] at hq ⊢ <;> (repeat' split) <;>
+    simp_all [newList, Heap.alloc, allocs] <;> omega
+
+/-- **Read-only in operation sequences of any length**: any sequence made only of
+    operations without a target — reads, slices, copies, `+`, `sorted` (1 and 2 arguments),
+    `reversed`, `list()`, `set()`, `keys`, `values`, `items`, `filter`, `each`, `chunk`,
+    `map`, union, intersection — leaves every object that existed at the start as it was. -/
+theorem readonly_builtins_seq (m : Mode) (h : Heap) (ops : List Op) (hn : ∀ op ∈ ops, target op = none)
+    (r : Nat) (hr : r < h.objs.length) : (run m h ops).1.objs[r]? = h.objs[r]? :=
+  (keeps_seq m h ops r hr (fun op ho => by rw [hn op ho]; exact fun e => by cases e)).1
+
+/-- **Independence of operand and result, for every builtin of the class and every later
+    operation sequence**: if builtin `b` (without a target) returns container `q`, then the
+    operand — and every other object `r` that existed — is unchanged by the call, `q` is new,
+    and afterwards: every operation sequence of any length that does not target `q` (every
+    mutation of the operand included) leaves `q` as it was returned, and every sequence that
+    does not target `r` (every mutation of the result included) leaves `r` as it was. -/
+theorem builtin_independent (m : Mode) (h : Heap) (b : BOp) (r q : Nat) (hr : r < h.objs.length)
+    (ht : target (.bi b) = none) (hq : (step m h (.bi b)).2 = .val (.ref q)) :
+    let h1 := (step m h (.bi b)).1
+    h.objs.length ≤ q ∧ q < h1.objs.length ∧ h1.objs[r]? = h.objs[r]? ∧
+    (∀ ops, (∀ op ∈ ops, target op ≠ some q) → (run m h1 ops).1.objs[q]? = h1.objs[q]?) ∧
+    (∀ ops, (∀ op ∈ ops, target op ≠ some r) → (run m h1 ops).1.objs[r]? = h.objs[r]?) := by
+  simp only [step] at hq ⊢
+  have hf := builtin_result_fresh h b q hq
+  have he := builtin_readonly h b ht
+  have hlen : h.objs.length ≤ (stepB h b).1.objs.length := by omega
+  refine ⟨hf.1, hf.2, he.obj r hr, ?_, ?_⟩
+  · intro ops hops
+    exact (keeps_seq m (stepB h b).1 ops q hf.2 hops).1
+  · intro ops hops
+    rw [(keeps_seq m (stepB h b).1 ops r (by omega) hops).1]
+    exact he.obj r hr
+
+/-- **`sorted(x, f)` never loses, duplicates or invents an element**, whatever the
+    comparison function answers and wherever it raises: the arrangement is a permutation. -/
+theorem sorted_by_keeps_elements (f : CmpOracle) (xs : List Val) : (Impl.sortBy f xs).1.Perm xs :=
+  sortBy_perm f xs
+
+/-- **`sorted(x, f)` sorts**: when the comparison function is an abstract relation `lt`
+    (every call answers `lt a b`) that behaves as a strict total preorder on the items, no
+    error is reported and in the result no later item is less than an earlier one; the
+    result is what the one-argument sort gives for the comparator of `lt`. -/
+theorem sorted_by_sorted (lt : Val → Val → Bool) (g : GoodCmp (relCmp lt)) (f : CmpOracle)
+    (hf : ∀ n a b, f n a b = some (lt a b)) (xs : List Val) :
+    Impl.sortBy f xs = ((Impl.sort (relCmp lt) xs).1, false) ∧
+    (Impl.sortBy f xs).1.Pairwise (fun a b => lt b a = false) := by
+  have h1 := sortBy_of_rel lt f hf xs
+  refine ⟨h1, ?_⟩
+  rw [h1]
+  refine List.Pairwise.imp ?_ (sort_sorted (relCmp lt) g xs).2
+  intro a b hab
+  simp only [relCmp] at hab
+  split at hab
+  · cases hab
+  · rename_i hn; simpa using hn
+
+/-- a comparison function that never raises gives no error -/
+theorem sorted_by_no_raise (f : CmpOracle) (hf : ∀ n a b, (f n a b).isSome = true) (xs : List Val) :
+    (Impl.sortBy f xs).2 = false := by
+  unfold Impl.sortBy; exact sortByLoop_no_raise f hf [] xs 0
+
+/-- **`sorted(x, f)` is read-only on its operand**: for every heap, operand `r` of any kind,
+    comparison function `f` and raising call number `k`, in both readings of the machine,
+    every object (the operand included) and every byte array that existed before the call is
+    exactly as it was afterwards — whether the call returns a list or raises. -/
+theorem sorted_by_readonly (m : Mode) (h : Heap) (r : Nat) (f : CmpFn) (k : Option Nat) :
+    Extends h (step m h (.bi (.sortedBy r f k))).1 := by
+  simp only [step]
+  exact builtin_readonly h (.sortedBy r f k) rfl
+
+/-- **… in sequences of any length**: any number of `sorted(x, f)` calls in a row — any
+    operands, comparison functions and raising call numbers, successful or not — leaves every
+    object that existed at the start exactly as it was. (`readonly_builtins_seq` is the same
+    for arbitrary mixes with the other target-less operations.) -/
+theorem sorted_by_readonly_seq (m : Mode) (h : Heap) (calls : List (Nat × CmpFn × Option Nat))
+    (r : Nat) (hr : r < h.objs.length) :
+    (run m h (calls.map (fun c => Op.bi (.sortedBy c.1 c.2.1 c.2.2)))).1.objs[r]? = h.objs[r]? := by
+  refine readonly_builtins_seq m h _ ?_ r hr
+  intro op ho
+  simp only [List.mem_map] at ho
+  obtain ⟨c, _, rfl⟩ := ho
+  rfl
+
+/-- **`sorted(x, f)` when a comparison raises at some step**: the call returns a type error
+    and the heap — the operand in particular — is exactly what it was before the call: no
+    half-sorted operand. (`Impl.sortBy … .1` is the half-sorted arrangement of the private
+    copy at that point; it is dropped.) -/
+theorem sorted_by_error_leaves_operand (m : Mode) (h : Heap) (r : Nat) (f : CmpFn) (k : Option Nat)
+    (he : (Impl.sortBy (oracleOf h f k) (sortItems h r)).2 = true) :
+    step m h (.bi (.sortedBy r f k)) = (h, .err .type) := by
+  simp only [step, stepB]
+  split
+  · rfl
+  · rename_i heq; rw [heq] at he; cases he
+
+/-- … and, conversely, an error of `sorted(x, f)` only ever comes from a raising comparison -/
+theorem sorted_by_error_iff (m : Mode) (h : Heap) (r : Nat) (f : CmpFn) (k : Option Nat) :
+    (∃ c, (step m h (.bi (.sortedBy r f k))).2 = .err c) ↔
+      (Impl.sortBy (oracleOf h f k) (sortItems h r)).2 = true := by
+  simp only [step, stepB]
+  split
+  · rename_i heq; simp [heq]
+  · rename_i heq; simp [heq, newList, Heap.alloc]
+
+/-- **`sorted(x, f)` returns an independent list**: when no comparison raises, the result is
+    a NEW list object holding a permutation `ys` of the operand's items (the arrangement the
+    oracle-driven sort computes); the operand is unchanged by the call; afterwards every
+    operation sequence of any length that does not target the result (every mutation of the
+    operand included) leaves the result `ys`, and every sequence that does not target the
+    operand (every mutation of the result included) leaves the operand as it was. -/
+theorem sorted_by_independent (m : Mode) (h : Heap) (r : Nat) (f : CmpFn) (k : Option Nat) (ys : List Val)
+    (o : Obj) (hr : r < h.objs.length) (hx : h.objs[r]? = some o)
+    (hs : Impl.sortBy (oracleOf h f k) (sortItems h r) = (ys, false)) :
+    let h1 := (step m h (.bi (.sortedBy r f k))).1
+    let r' := h.objs.length
+    (step m h (.bi (.sortedBy r f k))).2 = .val (.ref r') ∧ ys.Perm (sortItems h r) ∧
+    h1.objs[r']? = some (.list ys) ∧ h1.objs[r]? = some o ∧
+    (∀ ops, (∀ op ∈ ops, target op ≠ some r') → (run m h1 ops).1.objs[r']? = some (.list ys)) ∧
+    (∀ ops, (∀ op ∈ ops, target op ≠ some r) → (run m h1 ops).1.objs[r]? = some o) := by
+  have hstep : step m h (.bi (.sortedBy r f k)) =
+      ({ h with objs := h.objs ++ [.list ys] }, .val (.ref h.objs.length)) := by
+    simp [step, stepB, hs, newList, Heap.alloc]
+  have hp : ys.Perm (sortItems h r) := by
+    have := sortBy_perm (oracleOf h f k) (sortItems h r)
+    rw [hs] at this; exact this
+  simp only [hstep]
+  exact ⟨trivial, hp, alloc_independent m h r o (.list ys) hr hx⟩
+
+/-- **`reversed(l)`, `list(x)`, `l.filter(p)`, one-argument `sorted(x)`**: same statement for
+    the other list-returning builtins, with the content each must have. -/
+theorem list_builtin_independent (m : Mode) (h : Heap) (b : BOp) (r : Nat) (ys : List Val) (o : Obj)
+    (hr : r < h.objs.length) (hx : h.objs[r]? = some o)
+    (hb : stepB h b = (({ h with objs := h.objs ++ [.list ys] } : Heap), .val (.ref h.objs.length))) :
+    let h1 := (step m h (.bi b)).1
+    let r' := h.objs.length
+    h1.objs[r']? = some (.list ys) ∧ h1.objs[r]? = some o ∧
+    (∀ ops, (∀ op ∈ ops, target op ≠ some r') → (run m h1 ops).1.objs[r']? = some (.list ys)) ∧
+    (∀ ops, (∀ op ∈ ops, target op ≠ some r) → (run m h1 ops).1.objs[r]? = some o) := by
+  simp only [step, hb]
+  exact alloc_independent m h r o (.list ys) hr hx
+
+/-- `reversed(l)` is such a builtin and its content is the reversed item list -/
+theorem reversed_result (h : Heap) (r : Nat) (xs : List Val) (hg : h.get r = .list xs) :
+    stepB h (.reversed r) = (({ h with objs := h.objs ++ [.list xs.reverse] } : Heap), .val (.ref h.objs.length)) := by
+  simp [stepB, hg, newList, Heap.alloc]
+
+/-- `list(l)` is such a builtin and its content is the item list -/
+theorem toList_result (h : Heap) (r : Nat) (xs : List Val) (hg : h.get r = .list xs) :
+    stepB h (.toList r) = (({ h with objs := h.objs ++ [.list xs] } : Heap), .val (.ref h.objs.length)) := by
+  simp [stepB, iterItems, hg, newList, Heap.alloc]
+
+/-- `l.filter(p)` is such a builtin and its content is the sub-list of the items `p` accepts -/
+theorem filter_result (h : Heap) (r : Nat) (xs : List Val) (p : Pred) (v : Val) (hg : h.get r = .list xs) :
+    stepB h (.filter r p v) =
+      (({ h with objs := h.objs ++ [.list (xs.filter (predOf h p v))] } : Heap), .val (.ref h.objs.length)) := by
+  simp [stepB, hg, newList, Heap.alloc]
+
+/-- **`chunk(l, n)` for n ≥ 1** cuts the items into consecutive pieces without losing or
+    reordering anything: the pieces concatenated are the list. -/
+theorem chunks_join (n : Nat) (hn : 1 ≤ n) (f : Nat) (xs : List Val) (hf : xs.length ≤ f) :
+    (Impl.chunksOf n f xs).flatten = xs := by
+  induction f generalizing xs with
+  | zero =>
+    have : xs = [] := List.length_eq_zero_iff.1 (by omega)
+    subst this; simp [Impl.chunksOf]
+  | succ f ih =>
+    cases xs with
+    | nil => simp [Impl.chunksOf]
+    | cons x xs =>
+      simp only [Impl.chunksOf, List.flatten_cons]
+      rw [ih _ (by simp only [List.length_drop, List.length_cons] at hf ⊢; omega)]
+      exact List.take_append_drop n (x :: xs)
+
+/-! ## 7. Non-vacuity: the hypotheses are satisfiable and the functions do something -/
 
 example : Risor.Generated.C16.resolveIndex (-3) 3 = .ok 0 := by decide
 example : Risor.Generated.C16.resolveIndex (-4) 3 = .err := by decide
@@ -555,5 +789,34 @@ example : (Impl.sort (fun a b => if (match a with | .int i => i | _ => 0) < (mat
     [.int 3, .int 1, .int 2]).1 = [.int 1, .int 2, .int 3] := by decide
 example : MOp.wf (.update [([97], .int 1), ([98], .int 2)]) := by simp [MOp.wf, keys]
 example : target (.lSet 1 (.int 0) (.int 9)) ≠ some 0 := by decide
+
+-- sorted(l, f): a list operand, `a < b`, no raising call: new sorted list, operand untouched
+example : (run .impl { objs := [.list [.int 3, .int 1, .int 2]], arrs := [] }
+    [.bi (.sortedBy 0 .lt none), .lSet 1 (.int 0) (.int 100), .lAppend 0 (.int 7)]).1.objs
+    = [.list [.int 3, .int 1, .int 2, .int 7], .list [.int 100, .int 2, .int 3]] := by decide
+-- a comparison that raises at call 1: type error, and the heap is untouched although the
+-- private copy ends half-sorted ([0, 1, 3, 2], next example)
+example : step .impl { objs := [.list [.int 3, .int 1, .int 2, .int 0]], arrs := [] } (.bi (.sortedBy 0 .lt (some 1)))
+    = ({ objs := [.list [.int 3, .int 1, .int 2, .int 0]], arrs := [] }, .err .type) := by decide
+example : Impl.sortBy (fun n a b => if n = 1 then none else
+      match a, b with | .int x, .int y => some (decide (x < y)) | _, _ => none)
+    [.int 3, .int 1, .int 2, .int 0] = ([.int 0, .int 1, .int 3, .int 2], true) := by decide
+-- a comparison that raises by itself (int against string) half-way
+example : (step .impl { objs := [.list [.int 3, .int 1, .str [97], .int 0]], arrs := [] } (.bi (.sortedBy 0 .lt none))).2
+    = .err .type := by decide
+-- an oracle list (answers by call number only) is a comparison oracle too
+example : Impl.sortBy (fun n _ _ => [true, false, true][n]?) [.int 1, .int 2, .int 3] = ([.int 2, .int 1, .int 3], false) := by decide
+example : (Impl.sortBy (fun n _ _ => [true][n]?) [.int 1, .int 2, .int 3]).2 = true := by decide
+-- the hypotheses of `sorted_by_sorted` are satisfiable: integer keys
+example (key : Val → Int) : GoodCmp (relCmp (fun a b => decide (key a < key b))) := by
+  have h := goodCmp_of_key key
+  have e : relCmp (fun a b => decide (key a < key b)) = (fun a b => if key a < key b then Cmp.lt else Cmp.ge) := by
+    funext a b; simp [relCmp]
+  rw [e]; exact h
+-- chunk / items build nested fresh lists; each(acc) on the list itself doubles it
+example : (run .impl { objs := [.list [.int 1, .int 2, .int 3]], arrs := [] }
+    [.bi (.chunk 0 (.int 2)), .lSet 1 (.int 0) (.int 9), .bi (.eachAcc 0 0)]).1.objs
+    = [.list [.int 1, .int 2, .int 3, .int 1, .int 2, .int 3], .list [.int 9, .int 2], .list [.int 3], .list [.ref 1, .ref 2]] := by decide
+example : target (.bi (.sortedBy 0 .lt (some 3))) = none ∧ target (.bi (.eachAcc 0 1)) = some 1 := by decide
 
 end Risor.C16
